@@ -406,7 +406,74 @@ def check_proxy_extract(fx, rep):
         rep.bad('R05.7', 'proxy|floor', Fp, 'expected the regular and the streaming template to map success replies, found %d' % n)
 
 
+def check_setters(fx, rep):
+    """R05.9: the flag setters / getters of Call are faithful: set_F stores its argument into F and touches no other flag, F() returns F"""
+    import mir
+    core = fx.crate('zlink_core', 'full')
+    adt = [a for p_, a in core.adts.items() if p_ == 'call::Call' or p_.endswith('::call::Call')]
+    flags = [f['name'] for f in adt[0]['variants'][0]['fields'] if f.get('ty') == 'bool'] if adt else []
+    if not flags:
+        rep.bad('R05.9', 'anchor', 'zlink-core/src/call/mod.rs', 'bool fields of call::Call not found in the type facts')
+        return
+    n = 0
+    for b in core.bodies:
+        if b.in_test or not re.match(r'call::Call<', (b.impl_self or '')) or b.impl_trait:
+            continue
+        if b.name.startswith('set_') and b.name[4:] in flags:
+            F = b.name[4:]
+            n += 1
+            stores = [(blk, i_, s_) for blk, i_, s_ in b.iter_assigns() if (mir.place_last_field(s_['place']) or (None, None))[1] in flags and
+                      isinstance((s_['place'].get('p') or [None])[-1], dict)]
+            own = [x for x in stores if mir.place_last_field(x[2]['place'])[1] == F]
+            other = sorted({mir.place_last_field(x[2]['place'])[1] for x in stores} - {F})
+            ok = len(own) == 1 and own[0][2]['rv']['k'] == 'use' and b.trace(own[0][2]['rv']['op']).get('kind') == 'arg' and not other
+            rep.check(ok, 'R05.9', 'call::Call::%s|stores-only-its-flag' % b.name, b.where(),
+                      '%s stores its argument into `%s` and leaves the other flags alone' % (b.name, F),
+                      'Call::%s does not just store its argument into `%s`%s: which of the eight flag combinations a Call ends up with then depends on the order of '
+                      'the setter calls, some combinations cannot be built at all, and encode / decode (which fill the fields directly) disagree with the builder'
+                      % (b.name, F, (' - it also writes %s' % ', '.join('`%s`' % o for o in other)) if other else ''))
+        elif b.name in flags and b.kind == 'AssocFn':
+            n += 1
+            rets = [s_ for blk, i_, s_ in b.iter_assigns() if s_['place']['l'] == 0 and not s_['place'].get('p')]
+            ok = len(rets) == 1 and rets[0]['rv']['k'] == 'use' and (mir.place_last_field(mir.op_place(rets[0]['rv']['op']) or {'p': None}) or (None, None))[1] == b.name
+            rep.check(ok, 'R05.9', 'call::Call::%s|returns-its-flag' % b.name, b.where(), '%s() returns the `%s` member' % (b.name, b.name),
+                      'Call::%s() does not return the stored `%s` flag unchanged' % (b.name, b.name))
+    rep.floor('R05.9', 2 * len(flags), 'flag setters and getters of Call')
+
+
+def check_attr_scans(fx, rep):
+    """R05.10: the helpers that look an attribute up by name (`#[zlink(rename = ..)]` ..) walk over *all* attributes of the item: the branch taken
+    for an attribute of another name goes on with the next one"""
+    n = 0
+    for fn, it, impl in A.all_fns(fx.tpl, 'zlink-macros/src'):
+        if 'Attribute' not in (it.get('sig') or ''):
+            continue
+        for lp in [x for x in A.nodes(it.get('body') or []) if x.get('k') == 'for']:
+            for x, path in A.nodes_with_path(lp.get('body')):
+                if x.get('k') != 'if' or any(p.get('k') in ('for', 'while', 'loop', 'closure') for p in path):
+                    continue
+                cond = re.sub(r'\s', '', A.text(x.get('cond_node')) if x.get('cond_node') else (x.get('cond') or ''))
+                if 'is_ident(' not in cond:
+                    continue
+                neg = cond.startswith('!')
+                branch = x.get('then') if neg else x.get('else')
+                if branch is None:
+                    continue
+                n += 1
+                leaves = [y.get('k') for y, p2 in A.nodes_with_path(branch) if y.get('k') in ('break', 'return') and not any(q.get('k') in ('for', 'while', 'loop', 'closure') for q in p2)]
+                rep.check(not leaves, 'R05.10', '%s|other-attributes-are-skipped|%d' % (it['name'], n), '%s:%s' % (fn, x.get('line')),
+                          '%s: an attribute of another name is skipped and the scan goes on' % it['name'],
+                          '%s stops scanning at the first attribute that is not the one it looks for (`%s` in the branch for other attributes): a `#[zlink(..)]` attribute that '
+                          'stands after a doc comment, `#[allow]`, `#[serde(..)]` .. is not seen - a renamed field then travels under its Rust name and the real message is rejected'
+                          % (it['name'], leaves[0] if leaves else ''))
+    rep.floor('R05.10', 1, 'attribute scans with a skip branch')
+
+
 def check(fx, rep, tier):
+    rep.rule('R05.9', 'the flag setters of Call store their argument into their own flag and touch no other flag; the getters return the stored flag (all eight combinations can be built, in any order)')
+    rep.rule('R05.10', 'attribute look-ups in the macros skip attributes of other names and go on (no break / return in the branch for a non-matching attribute)')
+    check_setters(fx, rep)
+    check_attr_scans(fx, rep)
     rep.rule('R05.1', 'flag table: every bool field F of Call <-> serialized entry "F": true <-> filtered key "F" -> cell -> field F (absent => false)')
     rep.rule('R05.2', 'flags are written only under their own field; the flattening serializer forwards keys/values only and accepts map/struct')
     rep.rule('R05.3', 'flag arms consume+record+continue; the wildcard arm forwards the key to the method type; values are forwarded unchanged')
